@@ -275,6 +275,27 @@ func cmdCheck(args []string) int {
 		}
 		r.owner[ob].solveObligation(ob, to)
 	})
+	// second attempt for SMT obligations that ran out of time (a loaded machine must not turn
+	// into an alarm): a few at a time, three times the budget. A failure with a model (sat) or
+	// an ill-formed query is final; so is a second time-out.
+	var late []*Obligation
+	for _, ob := range sel {
+		if ob.Run == nil && !ob.MustFail && ob.Status == "failed" && (ob.FailStatus == "timeout" || ob.FailStatus == "unknown") &&
+			findingFor(kfs, prop, ob.Name) == nil && r.owner[ob] != nil {
+			late = append(late, ob)
+		}
+	}
+	if len(late) > 0 && len(late) <= 8 {
+		runParallel(len(late), 4, func(i int) {
+			ob := late[i]
+			first := ob.Detail
+			ob.Status, ob.Detail, ob.FailText, ob.FailStatus = "", "", "", ""
+			r.owner[ob].solveObligation(ob, 3*timeout)
+			if ob.Status == "discharged" {
+				ob.Detail = "discharged on the second attempt; the first ran out of time: " + first
+			}
+		})
+	}
 	sort.SliceStable(sel, func(i, j int) bool { return sel[i].Name < sel[j].Name })
 	var samples []map[string]interface{}
 	var known []map[string]string
